@@ -20,6 +20,7 @@ import Golib.Proof.C01Facts
 import Golib.Proof.C01Inv
 import Golib.Proof.C01Lin
 import Golib.Proof.C01LinStep
+import Golib.Proof.C01Hist
 import Golib.Proof.C01Progress
 import Golib.Proof.C01U32Run
 import Golib.Proof.C01U32Lin
@@ -122,7 +123,19 @@ for every thread `i` that takes the next step, with `gh'` the ghost after that s
     `c01_false_justified`);
  4. the elements of `q` are in the ring: the `j`-th element of `q` is the value stored in
     the slot of position `head + j` whenever that position is published
-    (⇒ no loss, no duplication, no invention, FIFO). -/
+    (⇒ no loss, no duplication, FIFO);
+ 5. no value is invented: the ghost also keeps, per thread, the call in flight `cur` (set at
+    the call's first step from the program counter `start call` the thread got from its
+    program — `start_push`: `start call = pushLoadTail v` iff `call = push v` —, cleared by
+    `lrun` when the call returns) and the histories `pushed` / `popped` of all values
+    appended to / removed from `q`.  `CurOk`: a thread inside `Push(v)` has `cur = push v`
+    (after its tail-CAS: its linearization record `pend = some v` is the argument of the
+    call in flight), a thread with no call in flight has `cur = none`.  The step of `i`
+    changes no history, or it is the tail-CAS of a thread whose call in flight is `Push(v)`
+    and appends exactly that `v` to `pushed` and `q`, or a head-CAS and moves the head of
+    `q` to `popped`.  A step that returns `Push = true` belongs to the call `Push(v)` whose
+    linearization point appended `v`.  Always `pushed = popped ++ q`
+    (corollary `c01_no_invention`). -/
 theorem c01_linearizable (k : Nat) (hk : 1 ≤ k) (r : Nat) (progs : List (List Call))
     (σ : List Nat) (i : Nat) :
     let c : Cfg := { M := 0, cap := 2 ^ k }
@@ -143,15 +156,53 @@ theorem c01_linearizable (k : Nat) (hk : 1 ≤ k) (r : Nat) (progs : List (List 
     (∀ j, j ≠ i → gh'.pend[j]? = gh.pend[j]?) ∧
     (∀ ret, (step c s i).2.ret = some ret → RetOk gh gh' i ret) ∧
     (∀ p, s.head ≤ p → p < s.tail → sq s.slots (p % c.cap) = some (p + 1) →
-      gh.q[p - s.head]? = vl s.slots (p % c.cap)) := by
+      gh.q[p - s.head]? = vl s.slots (p % c.cap)) ∧
+    ((∀ th, s.threads[i]? = some th → CurOk gh.pend gh.cur i th.pc) ∧
+     ((gh'.pushed = gh.pushed ∧ gh'.popped = gh.popped ∧ gh'.q = gh.q) ∨
+      (∃ v, gh.cur[i]? = some (some (.push v)) ∧ gh'.pushed = gh.pushed ++ [v] ∧
+        gh'.q = gh.q ++ [v] ∧ gh'.popped = gh.popped) ∨
+      (∃ x, gh.cur[i]? = some (some .pop) ∧ gh'.popped = gh.popped ++ [x] ∧
+        gh.q = x :: gh'.q ∧ gh'.pushed = gh.pushed)) ∧
+     ((step c s i).2.ret = some (.push true) →
+        ∃ v, gh.pend[i]? = some (some v) ∧ gh.cur[i]? = some (some (.push v))) ∧
+     gh.pushed = gh.popped ++ gh.q) := by
   intro c sg s gh gh'
   have g := ghost_pow k hk
   have hG : GInv c s gh := ginv_lrun g (ginv_initAt g r progs) σ
+  have hH : HInv s gh := hinv_lrun g (ginv_initAt g r progs) (hinv_initAt c r progs) σ
   have hI := hG.inv
   have h1 := hI.tail_le
   have h2 := hG.qlen
   exact ⟨lrun_fst _ _ _ σ, ⟨h2, by omega⟩, gstep_lin g hG i, fun j hj => gstep_pend_other s gh hj,
-    fun ret hr => returns_match g hG i ret hr, hG.stored⟩
+    fun ret hr => returns_match g hG i ret hr, hG.stored,
+    fun th hth => hH.curs i th hth, gstep_hist hG hH i, fun hr => push_true_arg hH hr, hH.hist⟩
+
+/-- `c01_no_invention` (explicit corollary of clause 5 of `c01_linearizable`).  After every
+schedule, with `pushed` = the arguments of the `Push` calls that linearized, in
+linearization order (each appended at the tail-CAS of a thread whose call in flight is that
+`Push(v)`), `popped` = the values removed by the `Pop`s that linearized, in order (each is
+what that `Pop` returns: `RetOk`), and `q` = the abstract queue: `pushed = popped ++ q`.
+Hence the popped values are a PREFIX of the pushed arguments (FIFO, each pushed value
+popped at most once and in order, nothing lost: what is not popped is still in `q`, i.e. in
+the ring), every popped value is the argument of a `Push` that linearized earlier, and the
+multiset of popped values is contained in the multiset of pushed arguments. -/
+theorem c01_no_invention (k : Nat) (hk : 1 ≤ k) (r : Nat) (progs : List (List Call))
+    (σ : List Nat) :
+    let c : Cfg := { M := 0, cap := 2 ^ k }
+    let gh := (lrun c (initAt c r progs) (ginit progs) σ).2
+    gh.pushed = gh.popped ++ gh.q ∧
+    gh.popped <+: gh.pushed ∧
+    (∀ x ∈ gh.popped, x ∈ gh.pushed) ∧
+    (∀ x, gh.popped.count x ≤ gh.pushed.count x) ∧
+    (∀ x, gh.pushed.count x = gh.popped.count x + gh.q.count x) ∧
+    (∀ call v, start call = .pushLoadTail v → call = .push v) := by
+  intro c gh
+  have g := ghost_pow k hk
+  have hH : HInv _ gh := hinv_lrun g (ginv_initAt g r progs) (hinv_initAt c r progs) σ
+  have h := hH.hist
+  refine ⟨h, ⟨gh.q, h.symm⟩, ?_, count_popped_le h, ?_, fun _ _ e => start_push e⟩
+  · intro x hx; rw [h]; exact List.mem_append_left _ hx
+  · intro x; rw [h, List.count_append]
 
 /-- Non-vacuity of `c01_linearizable`: capacity 2 at rotation 7, two pushers and a popper
 interleaved; the popper's head-CAS removes 6 (pushed first) from `q = [6, 5]`, and its
@@ -161,8 +212,10 @@ example :
     let σ := [1, 1, 1, 0, 0, 0, 1, 1, 2, 2]
     let sg := lrun c (initAt c 7 [[.push 5], [.push 6], [.pop]]) (ginit [[], [], []]) σ
     sg.2.q = [6, 5] ∧ (gstep sg.1 sg.2 2).q = [5] ∧ (gstep sg.1 sg.2 2).pend[2]? = some (some 6) ∧
+    sg.2.cur = [some (.push 5), none, some .pop] ∧ sg.2.pushed = [6, 5] ∧
     (let sg' := lrun c sg.1 sg.2 [2, 2, 2]
-     (step c sg'.1 2).2.ret = some (.pop 6 true) ∧ sg'.2.pend[2]? = some (some 6)) := by decide
+     (step c sg'.1 2).2.ret = some (.pop 6 true) ∧ sg'.2.pend[2]? = some (some 6) ∧
+     sg'.2.popped = [6] ∧ sg'.2.q = [5]) := by decide
 
 /-- `c01_false_justified`: whenever a `Push` is about to return false — at its sequence
 check or at its CAS — the tail moved since the call loaded it (another `Push` overlapped),
